@@ -53,6 +53,9 @@ def catalogue():
     w = lambda con, mn=1, mx=1: ('w', con, mn, mx)
     h = lambda mn=1, mx=1: ('h', mn, mx)
     cat = [
+        # the content of the type is one (optional) reference to a named group
+        (a([e('a'), e('b', 0, 1)], 0, 1), {'groupref_root': True}), (a([e('a'), e('b')]), {'groupref_root': True}),
+        (s([e('a'), e('b', 0, 1)], 0, 1), {'groupref_root': True}), (c([e('a'), e('b')], 0, 2), {'groupref_root': True}),
         # maxOccurs=0: no particle at all; a choice without particles matches nothing
         (c([e('a', 0, 0), e('b')]), {}), (s([e('a'), c([])]), {}), (s([e('a'), c([], 0, 1)]), {}),
         (c([s([e('a')], 0, 0), e('b')]), {}), (s([e('a', 0, 0), e('b')]), {}), (s([e('a'), c([e('b', 0, 0)])]), {}),
@@ -361,6 +364,8 @@ def classify(node, cfg, word, version, direction):
             if any(sym in declared and M.wildcard_admits(cfg['open'][1], sym) for sym in word):
                 return 'open-content-interleave+name-declared-in-model:false-reject'
         return f'unclassified:{direction}: {K.witness_text(node, cfg, word)}'
+    if cfg.get('groupref_root') and node[0] == 'a' and node[2] == 0 and direction == 'false-reject' and not word:
+        return 'optional-reference-to-a-named-all-group-rejects-empty-content:false-reject'
     if M.has_empty_choice(node) and direction == 'false-accept':
         return 'nested-choice-without-particles-matches-the-empty-sequence:false-accept'
     if M.has_absent(node):
@@ -434,6 +439,10 @@ def run_shard(spec, res):
                 # XSD 1.1: wildcards that refuse the names declared anywhere in the same content model
                 node = M.with_defined_sibling(node, rng)
                 res.count('random:models_with_definedSibling')
+            if not cfg.get('open') and not cfg.get('groupref') and rng.random() < 0.12:
+                # the model as a named group, the type's content being one reference to it (with the occurrence range)
+                cfg['groupref_root'] = True
+                res.count('random:models_as_root_group_reference')
             if not cfg and M.is_group(node) and node[0] != 'a' and rng.random() < 0.08:
                 # one particle with maxOccurs=0, or a nested choice without particles
                 kids = list(node[1])
